@@ -3,6 +3,11 @@
 import json, subprocess
 
 BUILT = {
+ "C11": dict(level="exploration",
+   technique="model-based testing: exhaustive breadth-first exploration of reachable map states (contents x representation) for a 7-key universe + rapid stateful operation sequences through grol source, oracle = sorted association-list reference map",
+   text="Every reachable (contents, internal representation) state of maps over 7 mixed-type keys (including the order-equivalent keys 2 and 2.0) and 2 values is reached breadth-first and every operation (Set, Delete, Rest, Range for all bounds, Append in both directions with 9 operands, Get, First, Len, Inspect, Equals/Cmp) is applied in it and compared with a sorted association-list model, so every position x representation x promotion/demotion boundary at the 4-pair threshold is hit; rapid then drives 10-60 step sequences of the same operations through grol source on a 45-key universe with a model check after every statement.",
+   note="Trusted: the association-list model in harness/val. API handles are used linearly (aliasing is C06).",
+   ref="DESIGN.md section 3, C11"),
  "C12": dict(level="exploration",
    technique="exhaustive pairs/triples of a curated value universe + rapid 'almost equal' nested triples; oracle = algebraic laws of a total preorder, operator cross-consistency, reference order",
    text="All ordered pairs and triples of an ~85-value universe (integers around 2^53/2^63 next to floats, -0, NaN, infinities, non-UTF-8 strings, small and large arrays and maps, nested containers, functions, extensions, quotes) are checked for the laws of a total preorder on object.Cmp/Equals and for consistency of <,<=,>,>=,==,!=,min,max, map literal order and map lookup through grol source; rapid adds nested values where one leaf differs and cross-checks the sign of Cmp against an independent exact reference order. Violations of transitivity need specific triples (found: 2^53+1 / 2^53.0 / 2^53), which the universe is built around.",
